@@ -91,8 +91,11 @@ def run_project(case):
         files = []
         for name, text in case['files']:
             p = d / name
+            p.parent.mkdir(parents=True, exist_ok=True)
             p.write_text(text, encoding='utf-8', errors='surrogateescape')
             files.append(p)
+        if case.get('roots'):
+            files = [d / r for r in case['roots']]      # directories / a chosen subset are handed to pydoctor
         out = d / 'out'
         env = dict(os.environ)
         cmd = [sys.executable, '-m', 'pydoctor', '--project-name=proj', '--html-output=%s' % out,
@@ -108,6 +111,8 @@ def run_project(case):
         if 'Traceback (most recent call last)' in se or 'Traceback (most recent call last)' in so:
             return {'what': 'uncaught exception traceback in output', 'case': case, 'observed': se[-1500:]}, pr.returncode
         for name, text in case['files']:
+            if case.get('roots'):
+                break                                   # package layouts: only status / traceback / summary files are judged
             modname = name[:-3]
             if ('--privacy=HIDDEN:%s' % modname) in case.get('args', []):
                 continue      # hidden modules have no page
@@ -184,6 +189,11 @@ def main():
                   'docformat': 'epytext'})
     cases.append({'files': [['pkgx.py', 'from _implx import Public, lazy_thing\n__all__ = [\'Public\', \'lazy_thing\', \'nosuch\']\n'],
                             ['_implx.py', 'class Public: pass\ndef __getattr__(name): return 1\n']], 'docformat': 'epytext'})
+    # duplicate module names with different parents + a second root of the same name (KeyError in System._remove, fixed a9f163d)
+    cases.append({'files': [['p/__init__.py', ''], ['p/a/__init__.py', ''], ['p/a/b.py', 'x = 1\n'], ['p/a.b/__init__.py', 'y = 2\n'],
+                            ['q/p/__init__.py', 'z = 3\n']], 'roots': ['p', 'q/p'], 'docformat': 'epytext'})
+    cases.append({'files': [['p/__init__.py', ''], ['p/m.py', 'x = 1\n'], ['p/m/__init__.py', 'y = 2\n'], ['q/p/__init__.py', ''],
+                            ['q/p/m.py', 'class K: pass\n']], 'roots': ['p', 'q/p', 'p'], 'docformat': 'epytext'})
     # every object hidden (nothing to index)
     cases.append({'files': [['solo.py', 'class K:\n    """doc"""\n']], 'docformat': 'epytext', 'args': ['--privacy=HIDDEN:solo'],
                   'tag': 'all_hidden'})
